@@ -1002,6 +1002,7 @@ def buckets(ctx, case, verdict):
 
 def run(ctx):
     drv = ctx.driver("drv_c22")
+    ctx.extra["lean_results"] = LEAN_RESULTS
     from harness import corpus
     for c in corpus.load("C22"):
         ctx.count("corpus")
@@ -1027,12 +1028,26 @@ def replay(ctx, payload):
     check_case(ctx, payload["case"], ctx.driver("drv_c22"))
 
 
+LEAN_RESULTS = [
+    "args_complete: one argument per delay() call, in walk order (initial equations first), inputs numbered 0..n-1",
+    "disallowed_cases: the check objects exactly to time, state/algebraic variables, non-fixed inputs, derivatives of states, delay inputs",
+    "rejects_iff_partial / accepts_iff_partial: rejection iff a source duration mentions a disallowed symbol — for durations that do not mention a loop variable",
+    "rejects_iff_as_implemented: the same characterisation without hypothesis, with loop-variable references read as the placeholders the generator creates (isolates C22-F1)",
+    "loop_indexed_duration_escapes / lonely_symbol_assertion: the defects C22-F1 and C22-F2 proved on the model of the code as it is",
+    "args_preserved: outside loops every translated equation and every argument pair evaluates like its source (arbitrary nesting)",
+    "loop_args_preserved: inside for-loops, per iteration, with arbitrarily nested delays: equations, vector/scalar arguments and durations evaluate like their source",
+    "postcheck_invariant_under_substitution: alias elimination / eliminable variables / replaced parameter and constant values (substituted in expressions AND durations) do not change the verdict",
+    "cached_calls_agree: with cache=True every one of any number of successive transfer_model calls gives the compile outcome (a rejected model is never served from a cache)",
+]
+
 MANIFEST = dict(
     level_text="Lean 4 theorems about an executable model of the delay translation of the CasADi generator (fresh input "
                "per delay() in post-order, initial equations first, for-loop lifting) and of Model._post_checks (duration "
                "dependency test against the C10 classification): rejection iff some source duration mentions a disallowed "
-               "category, one argument pair per source delay in order, and preservation of every delayed expression and "
-               "duration under evaluation; the duration check's verdict is invariant under the substituting simplification "
+               "category (full characterisation of the code as implemented, plus the version against the true variables "
+               "under the hypothesis that isolates open finding C22-F1, with the counterexamples for C22-F1/F2 proved), one "
+               "argument pair per source delay in order, and preservation of every delayed expression and duration under "
+               "evaluation outside loops and per iteration inside for-loops, for arbitrarily nested delays; the duration check's verdict is invariant under the substituting simplification "
                "passes, and successive cached calls give the compile outcome. Tied to the real code on every run by a differential correspondence on the real "
                "flat AST (verdict, delay symbols, exact values of the delay-argument function) plus a direct oracle on "
                "transfer_model (accept/reject per duration category mix; pairing of arguments, inputs and residuals at "
